@@ -6,7 +6,7 @@ cd /repo || exit 2
 if ! git diff --quiet; then echo "repo dirty"; exit 2; fi
 git apply "$P" || { echo "patch does not apply"; exit 2; }
 cd /verif
-./verifctl check "$PROP" --tier "$TIER" > /tmp/mutest.$$.out 2>&1
+VERIF_EVIDENCE_DIR=/var/tmp/verif-mutant-evidence ./verifctl check "$PROP" --tier "$TIER" > /tmp/mutest.$$.out 2>&1
 rc=$?
 git -C /repo checkout -- . 
 grep -E "^VIOLATION|^KNOWN-FINDING|INTERNAL|oracle=" /tmp/mutest.$$.out | head -8
